@@ -32,7 +32,7 @@ def spec_sort(rows, keyfn, reverse):
 
 def table_case(ctx, rng, pending, numkeys):
     rep = ctx.report
-    kind = rng.choice(['text', 'num', 'num', 'two-fields', 'callable', 'list'])
+    kind = rng.choice(['text', 'num', 'num', 'two-fields', 'callable', 'list', 'num-and-formatted', 'formatted-and-num'])
     n = rng.choice([0, 1, 2, 5, 12, 40])
     reverse = rng.random() < 0.4
     bs = rng.choice([1, 2, 1000])
@@ -45,6 +45,11 @@ def table_case(ctx, rng, pending, numkeys):
         key, keyfn = '{x}', (lambda r: num_key(r['x']))
     elif kind == 'two-fields':
         key, keyfn = '{y}{x}', (lambda r: (num_key(r['y']), num_key(r['x'])))
+    elif kind == 'num-and-formatted':
+        # a plain numeric field keeps its numeric order whatever the other fields of the format string look like
+        key, keyfn = '{x}{t:<6}', (lambda r: (num_key(r['x']), format(r['t'], '<6')))
+    elif kind == 'formatted-and-num':
+        key, keyfn = '{t:<3}{y}{x}', (lambda r: (format(r['t'], '<3'), num_key(r['y']), num_key(r['x'])))
     elif kind == 'list':
         key, keyfn = ['y', 'x'], (lambda r: (num_key(r['y']), num_key(r['x'])))
     else:
